@@ -165,9 +165,10 @@ static void show_state(void) {
     ls += count_ll(s->lg_srcv, offsetof(coap_lg_srcv_t, next));
     xs += count_ll(s->lg_xmit, offsetof(coap_lg_xmit_t, next));
   }
-  snprintf(cur, sizeof(cur), "ST:%d:%d:%d:%d ", ls, xs,
+  snprintf(cur, sizeof(cur), "ST:%d:%d:%d:%d:%d ", ls, xs,
            count_ll(cs->lg_crcv, offsetof(coap_lg_crcv_t, next)),
-           count_ll(cs->lg_xmit, offsetof(coap_lg_xmit_t, next)));
+           count_ll(cs->lg_xmit, offsetof(coap_lg_xmit_t, next)),
+           cs->lg_crcv ? cs->lg_crcv->initial : 0);
   if (strcmp(cur, last)) { fputs(cur, stdout); strcpy(last, cur); }
 }
 
